@@ -71,9 +71,15 @@ FAMILIES = {
                       "layout21tetris/src/conv/raw.rs: RawExporter::assign_track and the WHOLE of RawExporter::export_cell_layer_period (blockage loop, cut loop with the `&mut` borrow of "
                       "track % nsig and the span centre - cutsize/2 .. + cutsize, bottom assignments with the via rectangle centre - size/2 .. + size and the cached via layer, top "
                       "assignments, rails then signals) = assign_track / export_period of Tetris/Compile.v (repaired tree), outcomes by class"),
+    # fourth part of the subset (traits, joined branches, slices, loops on fuel, monadic self, derive_builder, format templates): the two codecs
+    "gds_write": ("Gds/KernelsTieGdsWrite_proofs.v", "Gds.KernelsTieGdsWrite_proofs", "Properties/KernelsGdsCodec.v",
+                  "gds21/src/write.rs, every provided method of `trait Encode` (encode_lib, encode_struct, encode_element, encode_boundary, encode_path, encode_struct_ref, "
+                  "encode_array_ref, encode_text_elem, encode_node, encode_box, encode_strans, encode_datetimes / encode_datetime) and data.rs GdsPoint::flatten / flatten_vec "
+                  "= flatten_lib, flat_struct, flat_element, flat_boundary .. flat_box, flat_strans, flat_dates, flat_points of Gds/GdsWrite.v: the same records in the same order handed to "
+                  "`encode_record`, for any implementor; over a byte vector with write_record = enc_record the whole of encode_lib = write_lib"),
 }
 # the file generated for each family (evidence text)
-GENERATED = {"tetris_period": "KernelsTetrisConvPGen.v", "tetris_proto": "KernelsTetrisProtoGen.v", "raw_gdsi": "KernelsRawGdsImportGen.v", "tetris_conv": "KernelsTetrisConvXGen.v, KernelsTetrisConvIGen.v", "raw_gdsx": "KernelsRawGdsExportGen.v", "order_generic": "KernelsOrderGen.v", "order_raw": "KernelsRawOrderGen.v", "order_tetris": "KernelsTetrisOrderGen.v, KernelsTetrisProtoOrderGen.v (and KernelsOrderGen.v)", "tetris_stack": "KernelsTetrisGen.v", "tetris_tracks": "KernelsTetrisGen.v", "tetris_place": "KernelsTetrisGen.v", "raw_lef": "KernelsRaw2Gen.v", "raw_proto": "KernelsRaw2Gen.v", "raw_gds": "KernelsRaw2Gen.v"}
+GENERATED = {"gds_write": "KernelsGdsWriteGen.v", "tetris_period": "KernelsTetrisConvPGen.v", "tetris_proto": "KernelsTetrisProtoGen.v", "raw_gdsi": "KernelsRawGdsImportGen.v", "tetris_conv": "KernelsTetrisConvXGen.v, KernelsTetrisConvIGen.v", "raw_gdsx": "KernelsRawGdsExportGen.v", "order_generic": "KernelsOrderGen.v", "order_raw": "KernelsRawOrderGen.v", "order_tetris": "KernelsTetrisOrderGen.v, KernelsTetrisProtoOrderGen.v (and KernelsOrderGen.v)", "tetris_stack": "KernelsTetrisGen.v", "tetris_tracks": "KernelsTetrisGen.v", "tetris_place": "KernelsTetrisGen.v", "raw_lef": "KernelsRaw2Gen.v", "raw_proto": "KernelsRaw2Gen.v", "raw_gds": "KernelsRaw2Gen.v"}
 TRANSLATOR = os.path.join(VERIF, "tools", "translate_rust_kernels.py")
 
 def _failing_lemma(out, coqdir):
